@@ -175,6 +175,21 @@ theorem all_converted (v w : Val) (p : PType) (vs ws : List Val) (ps : List PTyp
     convertArgs (v :: vs) (p :: ps) = some (.ok (w :: ws)) := by
   simp [convertArgs, h, hr]
 
+theorem convertArgs_any (vs : List Val) : convertArgs vs (List.replicate vs.length .any) = some (.ok vs) := by
+  induction vs with
+  | nil => rfl
+  | cons v r ih => simp [List.replicate_succ, convertArgs, any_parameter_receives_the_value, ih]
+
+/-- A VARIADIC `...any` PARAMETER RECEIVES EVERY ARGUMENT AS ONE ELEMENT - a list too: `xs | f` is `f(xs)` with ONE argument, never
+    `f(xs...)`; the number of elements the function sees is the number of arguments of the call -/
+theorem variadic_any_receives_each_argument (vs : List Val) : convertVariadic vs [] .any = some (.ok vs) := by
+  simp [convertVariadic, convertArgs_any]
+
+theorem variadic_any_after_fixed_any (v : Val) (vs : List Val) : convertVariadic (v :: vs) [.any] .any = some (.ok (v :: vs)) := by
+  have h := convertArgs_any (v :: vs)
+  simp only [List.length_cons, List.replicate_succ] at h
+  simp [convertVariadic, h]
+
 /-! non-vacuity: concrete conversions, decided by evaluation -/
 example : convertArg (.str "42".toList) (.int .int) = some (.ok (.int .int 42)) := by
   have h := digits_for_int_parameter "42".toList (by decide) (by decide) (by decide)
